@@ -1,2 +1,3 @@
 pub mod json;
 pub mod spell;
+pub mod ftable;
